@@ -50,6 +50,7 @@ R = {
   ('accumulator mix: accumulates onto the data', 'joinsel4-r5', 'selector.go', 'return appendMixed\\(make\\(\\[\\]any, 0\\), data\\)', 'return appendMixed(data[:0], data)'),
  ],
  'C09': [
+  ('splitter with index arithmetic: the next part starts one byte too far', 'joinsel5-r1', 'selector.go', 'start = i \\+ 1', 'start = i + 2'),
   ('dimension loop: each skips a dimension', 'joinsel2-r7', 'selector.go', 'rs, err := SelectDimension\\(item, dimensions\\)', 'rs, err := SelectDimension(item, dimensions[1:])'),
   ('dimension loop: two dimensions dropped', 'joinsel2-r7', 'selector.go', '\\t\\tindex := dimensions\\[0\\]\\n\\t\\tdimensions = dimensions\\[1:\\]', '\t\tindex := dimensions[0]\n\t\tdimensions = dimensions[2:]'),
  ],
